@@ -13,6 +13,17 @@ PROOF_NOTE = ("Trusted: Lean 4.33 kernel + axioms propext/Classical.choice/Quot.
               "tables/constants (Strophe/Gen). ")
 
 CLAIMED = {
+    "C05": dict(
+        engine="conn", design="5.5",
+        technique="Lean 4: the counter equals a specification over the ghost history of dispatched stanzas in every reachable state (invariant proof over all operation histories), step theorems for <r/> -> <a/>, global theorem over the log of written elements for the reported h; tied to conn.c/auth.c by differential execution + model-free monitor over the REAL parser's events; companion pass on engine q",
+        text=("handled_is_dispatch_count (in EVERY reachable state sm_handled_nr = the number of dispatched non-SM stanzas since the "
+              "<enabled/> that answered our <enable/>, mod 2^32, carried across disconnects and resumptions; the history and its "
+              "markers are ghost data decided from what arrives, not from what _handle_sm does), sm_elements_never_counted, "
+              "every_r_one_a (each <r/> on a live connection queues exactly one <a h=count/>, itself never numbered), "
+              "reported_h_is_count (the h of every <a/> and <resume/> that reaches the wire is the counter when it was produced), "
+              "count_carried_across. One defect found by the proof (D51: an element merely containing an SM child taken for the "
+              "SM answer) and repaired."),
+        note=PROOF_NOTE + "Stanzas are counted as the real parser delivers them (C10 covers the parser); a stanza with no namespace at all (a server whose stream header declares no default namespace) is not counted by the code nor by the model."),
     "C03": dict(
         engine="conn", design="5.3",
         technique="Lean 4 invariant proofs over every operation history of the connection-machine model, statements over the log of everything written (with the server's offers of that attempt as ghost data at queue time) and of every notification; tied to auth.c/conn.c/handler.c by differential execution of scripted sessions on the real library + model-free transcript monitor",
@@ -223,6 +234,11 @@ def main():
         "notes": "See DESIGN.md. known_findings.json lists genuine defects (fixed or recorded).",
         "not_applicable": na,
     }
+    # evidence of properties that are not claimed (work in progress) is not kept
+    for pid in ALL:
+        ev = os.path.join(VERIF, "evidence", pid + ".json")
+        if pid not in CLAIMED and os.path.exists(ev):
+            os.remove(ev)
     with open(os.path.join(VERIF, "MANIFEST.json"), "w") as f:
         json.dump(man, f, indent=1)
         f.write("\n")
